@@ -444,10 +444,12 @@ def gen_alias_history(rng):
             keys.append(k)
     last = {}
     ops = []
+    present = set()
     for k in keys:
         e = gen_entry(rng, k)
         e["key"] = k
         last[tuple(k)] = e
+        present.add(tuple(k))
         ops.append(["set", k, e])
     for _ in range(rng.randint(1, 4)):
         r = rng.random()
@@ -458,15 +460,36 @@ def gen_alias_history(rng):
             ops += [["commit"], ["reopen"]]
             continue
         k = rng.choice(keys)
-        if r < 0.65:
+        if tuple(k) not in present:
+            e = gen_entry(rng, k)
+            e["key"] = k
+            ops.append(["set", k, e])
+            present.add(tuple(k))
+        elif r < 0.45:
+            ops.append(gen_del(rng, k, keys))
+            present.discard(tuple(k))
+            continue
+        elif r < 0.75:
             e = vary_entry(rng, last[tuple(k)], "serialised")
             ops.append(["mutset", k, e])
         else:
             e = vary_entry(rng, last[tuple(k)], "eq-false")
             ops.append([rng.choice(["set", "mutset"]), k, e])
         last[tuple(k)] = e
+    if present and rng.random() < 0.4:
+        # the history ENDS with removals: commit, remove, commit (nothing stored after the last removal)
+        ops.append(["commit"])
+        for k in rng.sample(sorted(present), rng.randint(1, min(2, len(present)))):
+            ops.append(gen_del(rng, list(k), keys))
     ops.append(["commit"])
     return ops
+
+
+def gen_del(rng, k, keys):
+    """a removal of key k; delete_node only for a non-root key that is no proper prefix of another key in play"""
+    has_desc = any(len(o) > len(k) and list(o[:len(k)]) == list(k) for o in keys)
+    hows = ["del", "pop"] + (["node"] if k and not has_desc else [])
+    return ["del", k, rng.choice(hows)]
 
 
 def gen_load_case(rng):
@@ -498,6 +521,10 @@ def gen_load_case(rng):
     elif r < 0.6:
         ops += [["commit"]]
     ops += [["load"], ["commit"]]
+    if rng.random() < 0.4:
+        # remove the plain entry, or a (now loaded) directory entry whose children stay: ends with a removal
+        victim = fk if rng.random() < 0.5 or not used else list(sorted(used)[0])
+        ops += [["del", victim, rng.choice(["del", "pop"])], ["commit"]]
     return {"family": "sqlite", "store": store, "ops": ops}
 
 
@@ -762,12 +789,16 @@ def run_sqlite(ctx, case):
             ["mutset", key, entry]         the entry object last stored under key IN THIS SESSION is updated in place
                                            to `entry` and stored again (aliasing with the identity cache); without
                                            such an object: like "set"
+            ["del", key, how]              how = "del": del index[key]; "pop": index.pop(key); "node":
+                                           index.delete_node(key) (generated only for keys without descendants:
+                                           sqltrie orphans the rows below a deleted node)
             ["commit"], ["reopen"]         index.commit() ; index.close() + DataIndex.open(path)
             ["load"]                       the public path: iterate the index with an object storage attached, so
                                            that DataIndex._load fills unloaded directories, marks them loaded,
                                            stores them again and commits
-    Every DataIndexTrie.__setitem__ call is recorded (key + snapshot of the value at that moment): the recorded
-    writes are the model's SqSet operations and the oracle's "last write per key"."""
+    Every DataIndexTrie.__setitem__ / __delitem__ / delete_node call is recorded (key + snapshot of the value at
+    that moment): the recorded calls are the model's SqSet / SqDel operations and the oracle's "last operation per
+    key" (present with the last written entry, or absent)."""
     import copy
 
     from dvc_data.index import DataIndex
@@ -794,9 +825,25 @@ def run_sqlite(ctx, case):
 
     state = {"dirty": False}
 
+    orig_delitem = DataIndexTrie.__delitem__
+    orig_delete_node = DataIndexTrie.delete_node
+
+    def recording_delitem(self, key):
+        writes.append((tuple(key), None, None))
+        return orig_delitem(self, key)
+
+    def recording_delete_node(self, key):
+        writes.append((tuple(key), None, None))
+        return orig_delete_node(self, key)
+
     def flush():
         n = len(writes)
         for k, desc, snap in writes:
+            if desc is None:
+                terms.append(f"SqDel {ckey(k)}")
+                pending.pop(k, None)
+                live.pop(k, None)
+                continue
             terms.append(f"SqSet {ckey(k)} {centry(desc)}")
             pending[k] = snap
         del writes[:]
@@ -811,6 +858,8 @@ def run_sqlite(ctx, case):
         return idx
 
     DataIndexTrie.__setitem__ = recording_setitem
+    DataIndexTrie.__delitem__ = recording_delitem
+    DataIndexTrie.delete_node = recording_delete_node
     si = None
     try:
         si = open_index()
@@ -826,6 +875,16 @@ def run_sqlite(ctx, case):
                 live[k] = obj
                 si[k] = obj
                 flush()
+            elif op[0] == "del":
+                k = tuple(op[1])
+                if op[2] == "pop":
+                    si.pop(k)
+                elif op[2] == "node":
+                    si.delete_node(k)
+                else:
+                    del si[k]
+                flush()
+                ctx.count("sqlite:removal (" + op[2] + ")")
             elif op[0] == "commit":
                 si.commit()
                 committed = dict(pending)
@@ -859,6 +918,8 @@ def run_sqlite(ctx, case):
         after = [(list(k), e) for k, e in si.iteritems()]
     finally:
         DataIndexTrie.__setitem__ = orig_setitem
+        DataIndexTrie.__delitem__ = orig_delitem
+        DataIndexTrie.delete_node = orig_delete_node
         if si is not None:
             si.close()
     impl.rm_rf(d)
